@@ -28,7 +28,9 @@ def make(W, max_packet=8, epnum=1):
     def contract(c):
         d = USBMultibyteStreamInEndpoint(byte_width=W, endpoint_number=epnum, max_packet_size=max_packet)
         s, itf = d.stream, d.interface
-        ports = {"valid": s.valid, "payload": s.payload, "first": s.first, "last": s.last, "ready": s.ready,
+        # (port names carry a w_ prefix: with byte_width 1 the shift register *is* the inner `payload` signal, and a state
+        #  variable named like a port would be the same z3 constant)
+        ports = {"w_valid": s.valid, "w_payload": s.payload, "w_first": s.first, "w_last": s.last, "w_ready": s.ready,
                  # environment of the inner endpoint (only there so that it can drain and `ready` patterns are rich)
                  "tok_endpoint": itf.tokenizer.endpoint, "tok_is_in": itf.tokenizer.is_in,
                  "tok_ready_for_response": itf.tokenizer.ready_for_response, "tok_new_token": itf.tokenizer.new_token,
@@ -42,7 +44,7 @@ def make(W, max_packet=8, epnum=1):
         b_payload, b_first, b_last = ts.of(inner.stream.payload), ts.of(inner.stream.first) == 1, ts.of(inner.stream.last) == 1
 
         CW = 4
-        accept = z3.And(I["valid"] == 1, O["ready"] == 1)           # a word is accepted from the multi-byte stream
+        accept = z3.And(I["w_valid"] == 1, O["w_ready"] == 1)           # a word is accepted from the multi-byte stream
         xfer = z3.And(b_valid, b_ready)                             # a byte is taken by the byte endpoint
         busy = c.ghost("busy", 1, init=0)
         word = c.ghost("word", 8 * W, init=0)
@@ -51,9 +53,9 @@ def make(W, max_packet=8, epnum=1):
         idx = c.ghost("idx", CW, init=0)
         final = idx == W - 1                                        # the byte on offer is the word's final byte
         c.set_next(busy, z3.If(accept, bvc(1, 1), z3.If(z3.And(xfer, final), bvc(0, 1), busy)))
-        c.set_next(word, z3.If(accept, I["payload"], word))
-        c.set_next(gf, z3.If(accept, I["first"], gf))
-        c.set_next(gl, z3.If(accept, I["last"], gl))
+        c.set_next(word, z3.If(accept, I["w_payload"], word))
+        c.set_next(gf, z3.If(accept, I["w_first"], gf))
+        c.set_next(gl, z3.If(accept, I["w_last"], gl))
         c.set_next(idx, z3.If(accept, bvc(0, CW), z3.If(xfer, idx + 1, idx)))
 
         def le_byte(v, i_term):                                     # spec: byte i of v, little-endian
@@ -88,7 +90,7 @@ def make(W, max_packet=8, epnum=1):
                  z3.Implies(B_, n(busy) == z3.If(accept, bvc(1, 1), z3.If(z3.And(xfer, final), bvc(0, 1), bvc(1, 1)))),
                  clause="exactly once: the word is finished after exactly byte_width byte transfers")
         c.ensure("ready_only_when_byte_endpoint_has_taken_the_word",
-                 (O["ready"] == 1) == z3.Or(z3.Not(B_), z3.And(B_, final, b_ready)),
+                 (O["w_ready"] == 1) == z3.Or(z3.Not(B_), z3.And(B_, final, b_ready)),
                  clause="words are accepted only as fast as the underlying byte endpoint can take them: ready exactly when no word is "
                         "pending, or the pending word's final byte is being taken in this cycle")
         c.ensure("no_accept_while_bytes_remain", z3.Implies(z3.And(B_, z3.Not(z3.And(xfer, final))), z3.Not(accept)),
@@ -100,7 +102,7 @@ def make(W, max_packet=8, epnum=1):
                  z3.Implies(z3.And(B_, xfer, z3.Not(final)), z3.And(n(b_valid), n(b_payload) == le_byte(word, idx + 1))),
                  clause="bytes of a word follow each other in little-endian order")
         c.ensure("new_word_starts_at_byte0",
-                 z3.Implies(accept, z3.And(n(b_valid), n(b_payload) == bits(I["payload"], 7, 0))),
+                 z3.Implies(accept, z3.And(n(b_valid), n(b_payload) == bits(I["w_payload"], 7, 0))),
                  clause="an accepted word's least significant byte is offered in the next cycle")
 
         # ---- vacuity
